@@ -220,6 +220,14 @@ class controller_nonMPI(Controller):
             for lvl in self.MS[p].levels:
                 lvl.status.time = time[p]
 
+        # steps that do not take part in this block are neither its first nor its last step (they keep the data of the
+        # block they last took part in, but callbacks issued for all steps must not mistake them for the end of this block);
+        # after the last block `active_slots` is empty and the flags of that block stay as they are
+        for q in range(len(self.MS)):
+            if len(active_slots) > 0 and q not in active_slots:
+                self.MS[q].status.first = False
+                self.MS[q].status.last = False
+
         for C in [self.convergence_controllers[i] for i in self.convergence_controller_order]:
             C.reset_status_variables(self, active_slots=active_slots)
 
